@@ -22,6 +22,8 @@ def draw_env(rng, tcp=False, adversarial_ok=False, est_len=2000):
     if pol['kind'] == 'pct':
         pol['est_len'] = rng.choice([300, 1000, 3000, 8000]) if est_len is None else rng.choice([est_len // 4, est_len, est_len * 3])
     knobs = {'pipe_cap': rng.choice([4096, 65536, 65536, 95232, 1 << 20])}
+    if rng.random() < 0.25:
+        knobs['spawn_delay'] = rng.choice([0.001, 0.05, 0.5])
     if tcp:
         knobs['tcp_cap'] = rng.choice([8192, 212992, 212992, 3981312])
         knobs['latency'] = rng.choice([0.0, 0.0, 0.0005, 0.005, 0.02])
